@@ -471,7 +471,12 @@ func (e *Exec) execLoop(h *ssa.BasicBlock, loop map[*ssa.BasicBlock]bool, pre *S
 		}
 		if dec != nil {
 			d1 := e.evalClause(dec, bs, e.oldState(), nil)
-			g := And(App("<", "Bool", d1, dec0), App(">=", "Bool", dec0, IntLit(0)))
+			var g *Node
+			if strings.HasPrefix(d1.Sort, "(_ BitVec") {
+				g = App("bvult", "Bool", d1, dec0) // unsigned measure
+			} else {
+				g = And(App("<", "Bool", d1, dec0), App(">=", "Bool", dec0, IntLit(0)))
+			}
 			e.addObl(bs, fmt.Sprintf("%s/loop#%d/decreases", e.funcKey, ord), "decreases", g, h.Instrs[0].Pos(), dec.Text)
 		}
 	}
@@ -699,6 +704,9 @@ func (e *Exec) execInstr(s *State, ins ssa.Instruction) {
 			r := e.newRef(s)
 			e.setReg(x, r)
 			e.writeLoc(s, e.resolve(r, t), e.zeroValue(t))
+			if onlyClosureEscapes(x) {
+				s.priv = append(s.priv, privCell{r, x})
+			}
 		} else {
 			e.setReg(x, &LocalPtr{Cell: x})
 			s.locals[x] = e.zeroValue(t)
@@ -1259,4 +1267,39 @@ func mentions(n *Node, syms map[*Node]bool) bool {
 		return false
 	}
 	return rec(n)
+}
+
+// onlyClosureEscapes: the variable cell is reachable from other code only through closures that
+// capture it (every other use is a direct load/store/field or element access).
+func onlyClosureEscapes(a *ssa.Alloc) bool {
+	var okUse func(v ssa.Value, depth int) bool
+	okUse = func(v ssa.Value, depth int) bool {
+		refs := v.Referrers()
+		if refs == nil {
+			return false
+		}
+		for _, r := range *refs {
+			switch u := r.(type) {
+			case *ssa.Store:
+				if u.Val == v {
+					return false
+				}
+			case *ssa.UnOp:
+			case *ssa.FieldAddr:
+				if depth > 4 || !okUse(u, depth+1) {
+					return false
+				}
+			case *ssa.IndexAddr:
+				if depth > 4 || !okUse(u, depth+1) {
+					return false
+				}
+			case *ssa.MakeClosure:
+			case *ssa.DebugRef:
+			default:
+				return false
+			}
+		}
+		return true
+	}
+	return okUse(a, 0)
 }
